@@ -40,8 +40,8 @@ for s in sorted(k for k in res if k != "_clean_tree"):
     if nf_only:
         only_nf += 1
     others = [p for p in r.get("caught_by", []) if p != own]
-    rows.append("| %s | %s | %s | %s |" % (s, title[:110].replace("|", "/"), (", ".join(rules) + (" (reference comparison only)" if nf_only else "")) if rules else "**not caught**", ", ".join(others) or "-"))
-summary = "%d of %d seeded changes raise an alarm of their own property's check; %d of them only through a reviewed-reference comparison (a \"this code changed, re-review\" alarm rather than a rule that names the broken fact). Clean tree during the sweep: alarms = %s." % (
+    rows.append("| %s | %s | %s | %s |" % (s, title[:110].replace("|", "/"), (", ".join(rules) + (" (new trait-impl method)" if nf_only else "")) if rules else "**not caught**", ", ".join(others) or "-"))
+summary = "%d of %d seeded changes raise an alarm of their own property's check; %d of them only through the structural part of the reference pass (a new method in a trait impl: function-new) - the comparisons of normal forms themselves are advisory and raise no alarm. Clean tree during the sweep: alarms = %s." % (
     n_own, n, only_nf, res.get("_clean_tree", {}).get("alarms"))
 block = "<!-- seed-table -->\n" + summary + "\n\n" + "\n".join(rows) + "\n<!-- /seed-table -->"
 p = os.path.join(V, "DESIGN.md")
